@@ -689,8 +689,20 @@ func c01validate(res *vlib.Result, rec *krecord, recipe string, faults bool) {
 						cls = "lost/phase=" + strings.ReplaceAll(strings.SplitN(phase, ":", 2)[0], " ", "-")
 					}
 					if len(b.Sel.NsLabels) > 0 && len(vc.NsHist[parts[0]]) > 1 {
-						// the object's namespace was relabelled or deleted (and possibly re-created) during the case
-						cls = "lost-or-stale/ns-scope-change"
+						// The object's namespace was relabelled or deleted (and possibly re-created) during the case.
+						// The known finding covers objects that were inside the namespace when it left or entered the
+						// binding's scope (no Deleted / no Added for them). A change written while the namespace was
+						// in scope is an ordinary change: if it is missing, it is lost.
+						g := miss.Gen
+						if miss.Type == "Deleted" {
+							if _, idx, ok := vc.StateByGen(key, miss.Gen); ok && idx+1 < len(h) {
+								g = h[idx+1].Gen
+							}
+						}
+						l, ok := vc.NsLabelsAtGen(parts[0], g)
+						if !(ok && subsetLabels(b.Sel.NsLabels, l) && c01afterView(rec.PhaseOf[g])) || (miss.Type == "Deleted" && vc.LeftWithNamespace(parts[0], g)) {
+							cls = "lost-or-stale/ns-scope-change"
+						}
 					}
 					if (miss.Type == "Deleted" && phase == "between-AddMonitor-and-StartMonitor" && inV) || (inV && c02leftScope(rec, b, key, vGen)) {
 						// the view itself contains an object that had already left the binding's scope when the
